@@ -441,3 +441,9 @@ func buildRoot(w spec.Writer, n *tree.Node, r Route) ([]byte, error) {
 	}
 	return v.Build()
 }
+
+// BuildRootOn writes the tree as the root object of an explicit writer (not freed) and returns a copy of the bytes.
+func BuildRootOn(w spec.Writer, n *tree.Node) ([]byte, error) {
+	b, err := buildRoot(w, n, RExplicit)
+	return append([]byte{}, b...), err
+}
